@@ -32,7 +32,7 @@ def _exp(E, x):
     return math.exp(x)
 
 
-def _decay_case(nprod, rest_kind, tiny=False):
+def _decay_case(nprod, rest_kind, tiny=False, reuse=False):
     def h(E):
         from periodictable import activation
         LN2 = activation.LN2
@@ -58,6 +58,18 @@ def _decay_case(nprod, rest_kind, tiny=False):
         # activities at each rest time, as calculate_activation stores them
         Eij = [[_exp(E, -(lam[i] * T)) for T in rests] for i in range(nprod)]
         s = activation.Sample('Co', 1.0)
+        if reuse:
+            # the Sample has been used before, with other products, rest times and target: nothing of that may survive
+            prow = activation.ActivationResult(Thalf_hrs=E.real('Thalf_prev', lo=0, lo_open=True, hi=1e9, srange=(0.5, 50)),
+                                               isotope='P-0', daughter='Q-0', reaction='act')
+            s.rest_times = [0]
+            s.activity = {prow: [E.real('A_prev', lo=0, lo_open=True, hi=1e9, srange=(0.1, 100))]}
+            keep = activation.find_root
+            activation.find_root = lambda x, f, df, max=20, tol=1e-10: (x, 0)     # noqa: A002
+            try:
+                s.decay_time(E.real('target_prev', lo=0, lo_open=True, hi=1e10, srange=(0.01, 0.05)))
+            finally:
+                activation.find_root = keep
         s.rest_times = list(rests)
         s.activity = {rows[i]: [A0[i] * Eij[i][j] for j in range(len(rests))] for i in range(nprod)}
         R0 = sum(A0)                                   # total activity at removal from the beam
@@ -197,6 +209,28 @@ def _through_calculation_case(case, tier, seed):
                 elif len(res['violations']) < 5:
                     res['violations'].append(dict(case=case.name, claim='decay_time_after_calculation', values={'formula': ftxt, 'rest_times': list(rests), 'target_fraction': frac},
                                                   observed=[repr(t), repr(ref.get(key))], how='concrete: real calculate_activation + decay_time'))
+        # the same Sample object used again: a new calculation replaces everything the old one left behind
+        s = activation.Sample(ftxt, mass)
+        s.calculate_activation(activation.ActivationEnvironment(fluence=3e14, Cd_ratio=0., fast_ratio=0.), exposure=2, rest_times=[1, 0])
+        try:
+            s.decay_time(1e-3)
+        except Exception:   # noqa: BLE001
+            pass
+        s.calculate_activation(env, exposure=10, rest_times=[0, 24])
+        total0 = sum(v[0] for v in s.activity.values())
+        for frac in (0.5, 0.01, 1e-4):
+            res['claims'] += 1
+            try:
+                t = s.decay_time(total0 * frac)
+            except Exception as e:   # noqa: BLE001
+                t = type(e).__name__
+            r = ref[(ftxt, frac)]
+            ok = (t == r) if isinstance(t, str) or isinstance(r, str) else abs(t - r) <= 1e-3 * max(1.0, abs(r))
+            if ok:
+                res['discharged'] += 1
+            elif len(res['violations']) < 5:
+                res['violations'].append(dict(case=case.name, claim='decay_time_after_recalculation', values={'formula': ftxt, 'target_fraction': frac},
+                                              observed=[repr(t), repr(r)], how='concrete: calculate_activation twice on one Sample, then decay_time'))
     res['queries'] = res['distinct'] = res['claims']
     res['samples'] = [dict(checked=res['claims'])]
     return res
@@ -258,6 +292,8 @@ def cases(tier):
                     nsamples=40 if not th else 200, conc_rel=1e-6))
     out.append(Case('decay_time_tiny_activity[products=3|rests=zero_only]', _decay_case(3, 'zero_only', tiny=True), max_paths=mp, timeout_ms=to,
                     nsamples=40 if not th else 200, conc_rel=1e-6))
+    out.append(Case('decay_time_reused_sample[products=2|rests=zero_first]', _decay_case(2, 'zero_first', reuse=True), max_paths=mp, timeout_ms=to,
+                    nsamples=4, conc_rel=1e-6))
     out.append(Case('decay_time_after_real_calculation', None, custom=_through_calculation_case))
     out.append(Case('no_activation', _degenerate_case, max_paths=4))
     for m in ((1, 2) if not th else (1, 2, 3)):
